@@ -269,7 +269,17 @@ impl Mul<RoundedRect> for TranslateScale {
 
     #[inline]
     fn mul(self, other: RoundedRect) -> RoundedRect {
-        RoundedRect::from_rect(self * other.rect(), self * other.radii())
+        let mut radii = other.radii();
+        if self.scale < 0.0 {
+            // A negative scale is a half turn: every corner lands diagonally opposite.
+            radii = RoundedRectRadii::new(
+                radii.bottom_right,
+                radii.bottom_left,
+                radii.top_left,
+                radii.top_right,
+            );
+        }
+        RoundedRect::from_rect(self * other.rect(), self * radii)
     }
 }
 
